@@ -12,7 +12,7 @@ RULE = ("regression corpus + repository test snippets + seeded random programs (
 
 
 def cases(O):
-    return E.default_cases(O, "C02", n_quick=1000, n_thorough=5000, opts={"reparse": True})
+    return E.default_cases(O, "C02", n_quick=1000, n_thorough=15000, opts={"reparse": True})
 
 
 def judge(ctx):
